@@ -376,7 +376,10 @@ theorem entryf_prologue (c : Cfg) (L : JitAst.Layout) (m : Memory) (d e : Nat) (
   refine ⟨6 + 6 + 3, σ10, c.codeBase + aj, entry_rd F5 (b + 512) 56,
     stepsN_add c _ _ _ _ _ (stepsN_add c _ _ _ _ _ hst6 hst7) hst10, ?_, ?_, hr10, ?_, ?_, by rw [hl10, hl7, hl6]⟩
   · -- Rel0
-    refine ⟨?_, hmr, ?_, ?_, ?_, rfl⟩
+    refine ⟨?_, hmr, ?_, ?_, ?_, ?_⟩
+    rotate_right
+    · exact entry_room_after c m σ he (frame :: m.mbuff :: m.mem :: m.extra) _ lower _ (by rw [hxm]; simp) σ10.mem hm10
+        (entry_wr_base _ _ _) _ (by show (σ10.get 4).toNat + 8 = _; rw [hp10]; omega)
     · intro k hk
       rw [entryf_state_reg m σ d e k hk, hbdef]
       obtain ⟨v0, v1, v2, v3, v4, v5, v6, v7, v8, v9, v10⟩ := regOf_vals
@@ -394,7 +397,7 @@ theorem entryf_prologue (c : Cfg) (L : JitAst.Layout) (m : Memory) (d e : Nat) (
       · rw [v9]; exact hreg 15 (by decide) (by decide) (by decide) (by decide) (by decide)
       · rw [v10]; exact hrbp
     · rw [hr10', he.rdx, entryf_state_mem, entryf_prepared_mem]
-    · show (σ10.get 4).toNat + 8 = (entryStateFixed m σ d e).mem.stack.base
+    · show (σ10.get 4).toNat + 8 + 48 * 0 = (entryStateFixed m σ d e).mem.stack.base
       rw [hp10, entryf_state_mem, entryf_prepared_stack, hbdef]; omega
     · show readMem σ10.mem (σ10.get 4).toNat 8 = _
       rw [hp10, hm10]
